@@ -6,6 +6,7 @@ import (
 	"github.com/woodsbury/jmespath"
 	"sort"
 	"strconv"
+	"strings"
 )
 
 func init() {
@@ -444,6 +445,53 @@ func genC18(tier, out string, sum *Summary) {
 			}
 		}
 	}
+	// every small first stage with every kind of second stage (selectors, functions that tell null from absent,
+	// multi-selects, lets): two searches = one piped search = the compiled second stage on the first result
+	{
+		stage2 := []string{"@", "[0]", "a", "type(@)", "[@]", "!@", "to_array(@)", "not_null(@, 'x')", "[*]", "*", "a || 'd'", "{v: @}", "let $v = @ in [$v]", "@ == `null`", "to_string(@)", "[?@]", "length(to_array(@))", "[::-1]", "a.b", "[a, b]",
+			"`[10,20]`[1]", "to_array(`5`)[0]", "[type(@)][0]", "[@ == `null`][0]", "not_null(@, `[7,8]`)[0]", "`1`", "'lit'", "`null`", "`{\"k\":1}`.k", "[@][0]", "{a: @}.a", "to_array(@)[0]", "`[1,2]`[*]", "type(@) == 'null'"}
+		var x2 []*jmespath.Expression
+		for _, t := range stage2 {
+			x2 = append(x2, jmespath.MustCompile(t))
+		}
+		for i, sc := range smallScope(ssCfg{funcs: true, lets: true, bools: true, errs: true}, 1, 0) {
+			if tier != "thorough" && i%3 != 0 {
+				continue
+			}
+			t1 := unparse(sc.e)
+			o1 := search(t1, sc.doc)
+			if o1.Kind != "val" {
+				// a first stage that fails makes the pipe fail, whatever follows it
+				for _, t2 := range []string{"`1`", "'lit'", "`null`", "@", "type(@)", "[@]"} {
+					if op := search("("+t1+") | "+t2, sc.doc); op.Kind != o1.Kind {
+						sum.direct("requery", "("+t1+") | "+t2, sc.doc, fmt.Sprintf("e1 alone gives %s but the piped text gives %s", describe(o1), describe(op)))
+					}
+					if op := search(t1+" | "+t2, sc.doc); op.Kind != o1.Kind && !usesLet(sc.e) {
+						sum.direct("requery", t1+" | "+t2, sc.doc, fmt.Sprintf("e1 alone gives %s but the piped text gives %s", describe(o1), describe(op)))
+					}
+				}
+				continue
+			}
+			un1 := hasEnum(sc.e)
+			for k, t2 := range stage2 {
+				if un1 && (strings.Contains(t2, "[0]") || strings.Contains(t2, "[1]") || strings.Contains(t2, "[::-1]") || strings.Contains(t2, "to_string")) {
+					continue // position or text of an enumeration
+				}
+				o2 := search(t2, o1.Value)
+				r1 := o1.Value
+				oc := observe(func() (any, error) { return x2[k].Search(r1) })
+				op := search("("+t1+") | "+t2, sc.doc)
+				sum.count("small-scope-stages")
+				un1 := un1 || t2 == "*"
+				if !sameObs(o2, oc, un1) {
+					sum.direct("requery", t2, r1, fmt.Sprintf("one-shot search over the first result gives %s, the compiled expression gives %s", describe(o2), describe(oc)))
+				}
+				if !sameObs(o2, op, un1) && !(o2.Kind == "err" && op.Kind == "err") {
+					sum.direct("requery", "("+t1+") | "+t2, sc.doc, fmt.Sprintf("searching e2 over the result of e1 gives %s but the piped text gives %s", describe(o2), describe(op)))
+				}
+			}
+		}
+	}
 	// lets on both sides of the pipe, with the same names, null bindings and shadowing: the scopes of e1 and e2
 	// must not leak into each other whether the texts are joined or the searches are run one after the other
 	ldoc := map[string]any{"a": map[string]any{"b": json.Number("1"), "d": []any{json.Number("1"), json.Number("2")}}, "k": "top", "b": json.Number("7")}
@@ -569,6 +617,27 @@ func genC15(tier, out string, sum *Summary) {
 		}
 		if first.Kind == "val" && first.Value != nil {
 			c.dist[text] = true
+		}
+	}
+	// every combination of two constructs on equal documents built differently
+	for i, sc := range smallScope(ssCfg{funcs: true, lets: true, errs: true, bools: true}, 1, 1500) {
+		if tier != "thorough" && i%2 != 0 {
+			continue
+		}
+		text := unparse(sc.e)
+		un := hasEnum(sc.e)
+		first := search(text, sc.doc)
+		sum.count("small-scope/" + first.Kind)
+		for rep := 0; rep < 3; rep++ {
+			o := search(text, rebuild(sc.doc))
+			if sameObs(first, o, un) || (first.Kind == "err" && o.Kind == "err" && unorderedFaults(sc.e)) {
+				continue
+			}
+			if un && orderSensitive(sc.e) {
+				continue
+			}
+			sum.direct("determinism", text, sc.doc, fmt.Sprintf("first evaluation gives %s, evaluation on an equal, differently built document gives %s", describe(first), describe(o)))
+			break
 		}
 	}
 	// one-step evaluation and a fresh compilation are the same function: bare words (keywords, literals spelled
